@@ -17,7 +17,7 @@ cp /repo/Cargo.lock "$S/repo/" 2>/dev/null
 mkdir -p "$S/verif"
 rsync -a --exclude work --exclude harness/target --exclude .git --exclude evidence /verif/ "$S/verif/"
 mkdir -p "$S/verif/evidence"
-cp -a /verif/harness/target "$S/verif/harness/target" 2>/dev/null
+cp -al /verif/harness/target "$S/verif/harness/target" 2>/dev/null
 find "$S/verif/harness" -name Cargo.toml -exec sed -i "s#\"/repo/#\"$S/repo/#g" {} +
 
 cd "$S/verif"
